@@ -46,7 +46,8 @@ EXPLANATION = (
     "network through _get_single(hop URL), whose host/port come from that URL. (T7) sibling "
     "implementations agree. "
     "(T9) The TOFU key is canonical: the C19 component samples (incl. a mixed-case host and IPv6 literals) evaluate to the lower-cased, unbracketed hostname and the effective port. "
-    "(T10) Every GeminiClient construction passes trust_on_first_use as the caller's own option, a literal or the default."
+    "(T10) Every GeminiClient construction passes trust_on_first_use as the caller's own option, a literal or the default. "
+    "(T4, chain) every function that turns the peer's certificate into the fingerprinted object is pure."
 )
 
 SESSION = "client.session:GeminiClient"
